@@ -529,8 +529,6 @@ func Judge(c *Case) (v Verdict) {
 	rb := &html.Node{Type: html.DocumentNode}
 	adopt(ra, ta)
 	adopt(rb, tb)
-	defer release(ra)
-	defer release(rb)
 	if d := cc.compareKids(ra, rb, "#root", false); d != nil {
 		sig := d.sig
 		switch d.kind {
@@ -647,8 +645,6 @@ func adopt(holder *html.Node, roots []*html.Node) {
 	holder.FirstChild = roots[0]
 	holder.LastChild = roots[len(roots)-1]
 }
-
-func release(holder *html.Node) {}
 
 func textDiffKind(a, b string) string {
 	ja, jb := strings.ReplaceAll(a, " ", ""), strings.ReplaceAll(b, " ", "")
